@@ -385,6 +385,21 @@ func c02Scenarios(tier string) []*world.Scenario {
 	for _, sz := range [][3]int{{1, 30, 30}, {70, 3, 20}, {3, 3, 90}} {
 		out = append(out, SlowMultiFlush("C02", sz, slowB))
 	}
+	// more replies than one vectored write takes (1024 slices) released by one flush, then two more requests
+	{
+		sc := BigBatch("C02", 1100, false, 1)
+		inner := sc.Check
+		sc.Check = func(w *world.World) []world.Violation {
+			vs := inner(w)
+			for i := range vs {
+				if vs[i].Sig != "backend-received-malformed" {
+					vs[i].Sig = "reply-bytes-differ"
+				}
+			}
+			return vs
+		}
+		out = append(out, sc)
+	}
 	// production-size buffers: replies of 64 KiB and more parked for a slow reader while request objects are recycled
 	for _, sz := range [][]int{{100, 70000, 70000}, {70000, 66000, 100}, {140000, 10, 65536}} {
 		sc := BigSlowRecycle("C02", sz, 60000, 2)
